@@ -220,13 +220,16 @@ class RefKFAC:
                 self.hps[k]['c'] = v
         if factors is not None:
             for n in self.infos:
-                self.A[n] = factors[n]['A'].to(F64)
-                self.G[n] = factors[n]['G'].to(F64)
+                a, g = factors[n]['A'], factors[n]['G']
+                self.A[n] = None if a is None else a.to(F64)
+                self.G[n] = None if g is None else g.to(F64)
         else:
             for n in self.infos:
                 self.A[n] = None
                 self.G[n] = None
-        if compute_inverses and factors is not None:
+        if compute_inverses and factors is not None and all(
+                self.A[n] is not None and self.G[n] is not None
+                for n in self.infos):
             self.refresh()
         else:
             for n in self.infos:
